@@ -29,7 +29,7 @@ type In struct {
 	Kind  string   // dsc | changes
 	Op    string   // copy | move | remove
 	Names []string // listed names of the referenced files (as written in the control file)
-	Dest  string   // emptydir | samename | samename-longer | regularfile | missing
+	Dest  string   // emptydir | samename | samename-longer | samename-samesize | regularfile | missing
 	Gone  int      // index+1 of a referenced file that does not exist at the source (0 = all present)
 	Event string   // none | fault | shortwrite | crash
 	At    int      // operation index of the event
@@ -164,6 +164,13 @@ func execute(in In) (*result, error) {
 			os.WriteFile(filepath.Join(dst, filepath.Base(in.Names[len(in.Names)-1])), []byte(long), 0o644)
 		}
 		os.WriteFile(filepath.Join(dst, in.ctlName()), []byte(long), 0o644)
+	case "samename-samesize":
+		// files of the same names and exactly the same LENGTH but different content (control file included)
+		os.MkdirAll(dst, 0o755)
+		for _, n := range in.Names {
+			os.WriteFile(filepath.Join(dst, filepath.Base(n)), []byte(strings.Repeat("o", len(content(n)))), 0o644)
+		}
+		os.WriteFile(filepath.Join(dst, in.ctlName()), []byte(strings.Repeat("o", len(in.controlText()))), 0o644)
 	case "regularfile":
 		os.WriteFile(dst, []byte("i am a file\n"), 0o644)
 	case "missing":
@@ -259,7 +266,7 @@ func check(scen string, in In) ([]*mc.Violation, *result) {
 	if old, was := res.before[ctlDst]; was && ctlInDst && ctlNow == old {
 		ctlInDst = false // the untouched file of the same name that was there before is not "the control file in the destination"
 	}
-	dstIsDir := in.Dest == "emptydir" || in.Dest == "samename" || in.Dest == "samename-longer"
+	dstIsDir := in.Dest == "emptydir" || in.Dest == "samename" || in.Dest == "samename-longer" || in.Dest == "samename-samesize"
 
 	// I5 containment (always): every path the library touched lies in the control file's directory or the destination; sentinels intact
 	for _, op := range res.ops {
@@ -458,11 +465,13 @@ func Run(r *mc.Run) {
 		}
 	}
 	plain := [][]string{{}, {"hello_1.0.orig.tar.gz"}, {"hello_1.0.orig.tar.gz", "hello_1.0-1.debian.tar.xz"}, {"hello_1.0.orig.tar.gz", "hello_1.0-1.debian.tar.xz", "hello_1.0.orig.tar.gz.asc"}}
-	shapes := []string{"sub/x.tar", "../x.tar", "../../x.tar", "/abs/x.tar", "./x.tar"}
+	shapes := []string{"sub/x.tar", "../x.tar", "../../x.tar", "/abs/x.tar", "./x.tar",
+		// sibling directories whose names merely START with the name of the control file's directory / of the destination
+		"../src-keys/x.tar", "../srcx.tar", "../dst-old/x.tar", "sub/../../src2/x.tar"}
 	var bases []In
 	for _, kind := range []string{"dsc", "changes"} {
 		for _, op := range []string{"copy", "move", "remove"} {
-			dests := []string{"emptydir", "samename", "samename-longer", "regularfile", "missing"}
+			dests := []string{"emptydir", "samename", "samename-longer", "samename-samesize", "regularfile", "missing"}
 			if op == "remove" {
 				dests = []string{"emptydir"}
 			}
